@@ -229,7 +229,7 @@ func init() {
 	register(&Prop{
 		ID: "C10", Cmd: "parse",
 		Rule: "sequences of 1-4 single-byte tokens, each with a random left and/or right trimming mode (LeftTrim outermost, RightTrim outermost, or text.Trim), whitespace strings of 0-3 of {space, tab, LF, FF, CRLF} before, between and after the tokens, with or without a Sentence root, sometimes after other files; oracle = independent simulation of the property's accept/reject rule and error positions. Non-trivial = some trimming looked at a non-empty run.",
-		Count: quickN(8000, 80000),
+		Count: quickN(8000, 400000),
 		Gen:   c10Gen,
 		Exec:  c10Exec,
 	})
